@@ -11,82 +11,7 @@ import multiprocessing as mp
 import props
 
 
-def canon(ctx, v, depth=0):
-    """canonical plain form of an interpreter value (heap refs, ropes, structured strings) or of a native value"""
-    from pyvc.logic import Rope, simplify_native, is_sym
-    from pyvc.engine import Ref, HObj, HList, HDict, HBytesIO, ModelObj, SStr
-    import z3, io
-    SKIP = ("parent", "children", "_parent", "_children")
-    if depth > 7:
-        return "..."
-    v = simplify_native(v)
-    if is_sym(v):
-        v = simplify_native(z3.simplify(v))
-    if isinstance(v, SStr) and v.native() is not None:
-        v = v.native()
-    if isinstance(v, Rope) and v.is_concrete():
-        v = v.native()
-    if isinstance(v, Ref):
-        o = ctx.heap[v.oid]
-        if isinstance(o, HObj):
-            return ("obj", o.cls.__name__, tuple(sorted((k, canon(ctx, x, depth + 1)) for k, x in o.fields.items() if k not in SKIP)))
-        if isinstance(o, HList):
-            if o.base is not None:
-                return ("list+", len(o.items))
-            return ("seq", tuple(canon(ctx, x, depth + 1) for x in o.items))
-        if isinstance(o, HDict):
-            return ("dict", tuple((canon(ctx, k, depth + 1), canon(ctx, x, depth + 1)) for k, x in o.d.items()))
-        if isinstance(o, HBytesIO):
-            return ("stream", canon(ctx, o.pos))
-        return ("heap", type(o).__name__)
-    if isinstance(v, bool) or v is None:
-        return v
-    if isinstance(v, (int, str, bytes)):
-        return v
-    if isinstance(v, bytearray):
-        return bytes(v)
-    if isinstance(v, (list, tuple)):
-        return ("seq", tuple(canon(ctx, x, depth + 1) for x in v))
-    if isinstance(v, dict):
-        return ("dict", tuple((canon(ctx, k, depth + 1), canon(ctx, x, depth + 1)) for k, x in v.items()))
-    if isinstance(v, io.BytesIO):
-        return ("stream", v.tell())
-    if isinstance(v, ModelObj):
-        return ("model", v.kind)
-    if type(v).__name__ == "SymPt":
-        return ("pt", canon(ctx, getattr(v, "t", None)))
-    if type(v).__module__.startswith("btc_hd_wallet"):
-        d = dict(getattr(v, "__dict__", {}))
-        for klass in type(v).__mro__:
-            for k in getattr(klass, "__slots__", ()):
-                if k != "__weakref__" and hasattr(v, k):
-                    d[k] = getattr(v, k)
-        return ("obj", type(v).__name__, tuple(sorted((k, canon(ctx, x, depth + 1)) for k, x in d.items() if k not in SKIP)))
-    if type(v).__module__.startswith("ecdsa"):
-        try:
-            return ("ec", v.to_string() if hasattr(v, "to_string") else (v.x(), v.y()))
-        except Exception:
-            return ("ec", type(v).__name__)
-    return ("other", type(v).__name__, str(v)[:80])
-
-
-def _wild(x):
-    return isinstance(x, tuple) and x and (x[0] == "model" or (x[0] == "other" and x[1] in ("Rope", "SStr", "ArithRef", "BoolRef", "OStr", "Dec")))
-
-
-def _same(x, y):
-    """structural equality; a modelled library value / an uninterpreted term on the interpreter side is an
-    abstraction with nothing to compare"""
-    if _wild(x):
-        return True
-    if isinstance(x, tuple) and isinstance(y, tuple):
-        return len(x) == len(y) and all(_same(a, b) for a, b in zip(x, y))
-    return x == y
-
-
-def deep_same(ctx_a, a, ctx_b, b):
-    ca, cb = canon(ctx_a, a), canon(ctx_b, b)
-    return _same(ca, cb), ca, cb
+from pyvc.replay import canon, _wild, _same, deep_same      # noqa: E402
 
 
 def one(spec, q):
